@@ -146,6 +146,8 @@ pub struct Knobs {
     pub busy_wait: bool,
     /// some program variables (same names in every program, other types) and globals are RETAIN / PERSISTENT
     pub retain_block: bool,
+    /// a namespaced function library (functions calling their siblings, one named like a standard function) and USING
+    pub namespaces: bool,
 }
 
 impl Knobs {
@@ -163,12 +165,13 @@ impl Knobs {
             temp_init: j["temp_init"].as_bool().unwrap_or(false),
             busy_wait: j["busy_wait"].as_bool().unwrap_or(false),
             retain_block: j["retain_block"].as_bool().unwrap_or(false),
+            namespaces: j["namespaces"].as_bool().unwrap_or(false),
         }
     }
     pub fn to_json(&self) -> Json {
         json!({"boundary_pct": self.boundary_pct, "widening": self.widening, "case_exotic": self.case_exotic, "negation": self.negation,
                "for_extreme": self.for_extreme, "for_unsigned_down": self.for_unsigned_down, "max_depth": self.max_depth, "stmts_lo": self.stmts.0, "stmts_hi": self.stmts.1,
-               "power": self.power, "temp_init": self.temp_init, "busy_wait": self.busy_wait, "retain_block": self.retain_block})
+               "power": self.power, "temp_init": self.temp_init, "busy_wait": self.busy_wait, "retain_block": self.retain_block, "namespaces": self.namespaces})
     }
     pub fn swarm(r: &mut Rng) -> Knobs {
         Knobs {
@@ -184,6 +187,7 @@ impl Knobs {
             temp_init: r.chance(1, 3),
             busy_wait: false,
             retain_block: r.chance(1, 2),
+            namespaces: r.chance(1, 3),
         }
     }
 }
@@ -214,6 +218,8 @@ struct Scope {
     counters: Vec<String>,
     in_loop: u32,
     can_return: bool,
+    /// the POU has `USING Lib;` (namespaced library functions callable without qualification)
+    ns: bool,
 }
 
 #[derive(Clone, Debug)]
@@ -326,6 +332,14 @@ impl<'a> Gen<'a> {
                     format!("({} {op} {})", self.expr(sc, t, d), self.expr(sc, t, d))
                 }
             },
+            Ty::DInt if sc.ns && self.r.chance(1, 6) => match self.r.below(5) {
+                0 => format!("Twice({})", self.expr(sc, Ty::DInt, d)),
+                1 => format!("Lib.Twice({})", self.expr(sc, Ty::DInt, d)),
+                // the library's Limit has two parameters, the standard LIMIT three
+                2 => format!("Limit({}, {})", self.expr(sc, Ty::DInt, d), self.expr(sc, Ty::DInt, d)),
+                3 => format!("Quad({})", self.expr(sc, Ty::DInt, d)),
+                _ => format!("Lib.Inner.Deep({})", self.expr(sc, Ty::DInt, d)),
+            },
             t if t.is_int() => match self.r.below(if self.k.power { 18 } else { 16 }) {
                 16 | 17 => {
                     // power: exponent zero, small, a run-time value (negative for signed types now and then)
@@ -346,7 +360,8 @@ impl<'a> Gen<'a> {
                 6 if t.is_signed() && self.k.negation => format!("(-{})", self.expr(sc, t, d)),
                 7 if t.is_signed() => format!("ABS({})", self.expr(sc, t, d)),
                 8 => format!("{}({}, {})", *self.r.pick(&["MAX", "MIN"]), self.expr(sc, t, d), self.expr(sc, t, d)),
-                9 => format!("LIMIT({}, {}, {})", self.literal(t), self.expr(sc, t, d), self.literal(t)),
+                // (where the library's two-parameter Limit is in scope the standard LIMIT is shadowed: the checker rejects it)
+                9 if !sc.ns => format!("LIMIT({}, {}, {})", self.literal(t), self.expr(sc, t, d), self.literal(t)),
                 10 => format!("SEL({}, {}, {})", self.expr(sc, Ty::Bool, d), self.expr(sc, t, d), self.expr(sc, t, d)),
                 11 => {
                     let from = *self.r.pick(INTS);
@@ -633,7 +648,7 @@ impl<'a> Gen<'a> {
                             n = n.min(hi);
                             format!("({an}[{cname}] = {})", self.literal(aty))
                         }
-                        Some((an, aty, lo, hi)) if aty != Ty::Bool && self.r.bool() => format!("({an}[LIMIT({lo}, {cname}, {hi})] = {})", self.literal(aty)),
+                        Some((an, aty, lo, hi)) if aty != Ty::Bool && !sc.ns && self.r.bool() => format!("({an}[LIMIT({lo}, {cname}, {hi})] = {})", self.literal(aty)),
                         _ => self.expr(sc, Ty::Bool, 1),
                     };
                     if self.r.bool() {
@@ -723,13 +738,21 @@ pub fn gen_project(r: &mut Rng, knobs: Knobs, size: (usize, usize, usize)) -> Js
         pous.push(json!({"kind": "function", "name": name, "header": header, "stmts": stmts, "footer": format!("{name} := res;\nEND_FUNCTION\n")}));
         funcs.push(FuncSig { name, ret, params });
     }
+    if g.k.namespaces {
+        let lib = "NAMESPACE Lib\nFUNCTION Twice : DINT\nVAR_INPUT\n  a : DINT;\nEND_VAR\nTwice := (a MOD 1000) * 2;\nEND_FUNCTION\n\n\
+FUNCTION Limit : DINT\nVAR_INPUT\n  a : DINT;\n  b : DINT;\nEND_VAR\nLimit := (a MOD 100) + (b MOD 100);\nEND_FUNCTION\n\n\
+FUNCTION Quad : DINT\nVAR_INPUT\n  a : DINT;\nEND_VAR\nQuad := Twice(Twice(a)) + Lib.Inner.Deep(a);\nEND_FUNCTION\n\n\
+NAMESPACE Inner\nFUNCTION Deep : DINT\nVAR_INPUT\n  a : DINT;\nEND_VAR\nDeep := Twice(a) + Limit(a, 1);\nEND_FUNCTION\nEND_NAMESPACE\n";
+        pous.push(json!({"kind": "namespace", "name": "Lib", "header": lib, "stmts": [], "footer": "END_NAMESPACE\n"}));
+    }
     let mut fb_en: Vec<bool> = vec![];
     for bi in 0..n_fbs {
         let name = format!("Fb{bi}");
         let has_en = g.r.chance(1, 2);
         fb_en.push(has_en);
         let (en_in, eno_out) = if has_en { ("  EN : BOOL;\n", "  ENO : BOOL;\n") } else { ("", "") };
-        let mut header = format!("FUNCTION_BLOCK {name}\nVAR_INPUT\n{en_in}  x : DINT;\n  go : BOOL;\nEND_VAR\nVAR_OUTPUT\n{eno_out}  y : DINT;\n  z : DINT := 7;\nEND_VAR\nVAR\n");
+        let using = if g.k.namespaces && g.r.bool() { "USING Lib;\n" } else { "" };
+        let mut header = format!("FUNCTION_BLOCK {name}\n{using}VAR_INPUT\n{en_in}  x : DINT;\n  go : BOOL;\nEND_VAR\nVAR_OUTPUT\n{eno_out}  y : DINT;\n  z : DINT := 7;\nEND_VAR\nVAR\n");
         let (vars, text) = { let n_ = g.r.usize(1, 4); decl_vars(&mut g, "m", n_, true) };
         header.push_str(&text);
         header.push_str("  k0 : DINT;\n  k1 : INT;\n  tm : TON;\nEND_VAR\n");
@@ -749,6 +772,7 @@ pub fn gen_project(r: &mut Rng, knobs: Knobs, size: (usize, usize, usize)) -> Js
         sc.std_fbs = vec![("tm".into(), "TON")];
         sc.funcs = funcs.clone();
         sc.can_return = true;
+        sc.ns = !using.is_empty();
         let n = g.r.usize(1, g.k.stmts.1.min(8));
         let stmts: Vec<String> = (0..n).map(|_| g.stmt(&mut sc, 0)).collect();
         pous.push(json!({"kind": "fb", "name": name, "header": header, "stmts": stmts, "footer": "END_FUNCTION_BLOCK\n"}));
@@ -776,7 +800,8 @@ pub fn gen_project(r: &mut Rng, knobs: Knobs, size: (usize, usize, usize)) -> Js
     }
     for pi in 0..n_progs {
         let name = format!("Prog{pi}");
-        let mut header = format!("PROGRAM {name}\nVAR_EXTERNAL\n  g_sel : DINT;\n  g_a : DINT;\n  g_b : INT;\n  g_f : BOOL;\nEND_VAR\nVAR\n");
+        let using = if g.k.namespaces && g.r.chance(2, 3) { "USING Lib;\n" } else { "" };
+        let mut header = format!("PROGRAM {name}\n{using}VAR_EXTERNAL\n  g_sel : DINT;\n  g_a : DINT;\n  g_b : INT;\n  g_f : BOOL;\nEND_VAR\nVAR\n");
         let (vars, text) = { let n_ = g.r.usize(3, 9); decl_vars(&mut g, "v", n_, true) };
         if g.k.retain_block {
             // the first variables go into a retentive block (v0.. exist in every program, with other types), together with
@@ -845,6 +870,7 @@ pub fn gen_project(r: &mut Rng, knobs: Knobs, size: (usize, usize, usize)) -> Js
         }
         sc.funcs = funcs.clone();
         sc.can_return = false;
+        sc.ns = !using.is_empty();
         let n = g.r.usize(g.k.stmts.0, g.k.stmts.1);
         let stmts: Vec<String> = (0..n).map(|_| g.stmt(&mut sc, 0)).collect();
         pous.push(json!({"kind": "program", "name": name, "header": header, "stmts": stmts, "footer": "END_PROGRAM\n"}));
@@ -872,12 +898,14 @@ pub fn gen_bulk(r: &mut Rng, n: usize) -> Json {
 INTERFACE I{i}\nMETHOD M{i} : DINT\nVAR_INPUT a : DINT; END_VAR\nEND_METHOD\nEND_INTERFACE\n\n\
 CLASS C{i} IMPLEMENTS I{i}\nVAR v : DINT; END_VAR\nMETHOD PUBLIC M{i} : DINT\nVAR_INPUT a : DINT; END_VAR\nv := (v + a) MOD 1000;\nM{i} := v;\nEND_METHOD\nMETHOD PUBLIC N{i} : DINT\nN{i} := v + 1;\nEND_METHOD\nMETHOD PUBLIC O{i} : DINT\nO{i} := v + 2;\nEND_METHOD\nMETHOD PUBLIC Q{i} : DINT\nQ{i} := v + 3;\nEND_METHOD\nEND_CLASS\n\n\
 CLASS D{i} EXTENDS C{i}\nMETHOD PUBLIC X{i} : DINT\nX{i} := THIS.N{i}() + THIS.O{i}() + THIS.Q{i}();\nEND_METHOD\nEND_CLASS\n\n\
+CLASS Gc{i} EXTENDS D{i}\nMETHOD PUBLIC W{i} : DINT\nVAR_INPUT a : DINT; END_VAR\nv := (v + a) MOD 1000;\nW{i} := v;\nEND_METHOD\nEND_CLASS\n\n\
 FUNCTION_BLOCK BaseFb{i}\nVAR s2 : DINT; END_VAR\nMETHOD PUBLIC A1 : DINT\nA1 := s2 + 1;\nEND_METHOD\nMETHOD PUBLIC A2 : DINT\nA2 := s2 + 2;\nEND_METHOD\nMETHOD PUBLIC A3 : DINT\nA3 := s2 + 3;\nEND_METHOD\ns2 := (s2 + {k}) MOD 1000;\nEND_FUNCTION_BLOCK\n\n\
 FUNCTION_BLOCK DerFb{i} EXTENDS BaseFb{i}\nMETHOD PUBLIC A4 : DINT\nA4 := THIS.A1() + THIS.A2() + THIS.A3();\nEND_METHOD\nEND_FUNCTION_BLOCK\n\n\
+FUNCTION_BLOCK Der2Fb{i} EXTENDS DerFb{i}\nMETHOD PUBLIC A5 : DINT\ns2 := (s2 + 1) MOD 1000;\nA5 := s2;\nEND_METHOD\nEND_FUNCTION_BLOCK\n\n\
 FUNCTION G{i} : DINT\nVAR_INPUT a : DINT; END_VAR\nG{i} := (a MOD 100) + {k};\nEND_FUNCTION\n\n\
-FUNCTION_BLOCK B{i}\nVAR_INPUT x : DINT; END_VAR\nVAR_OUTPUT y : DINT; END_VAR\nVAR s : S{i}; c : C{i}; dd : D{i}; df : DerFb{i}; al : Al{i}; r : REF_TO DINT; END_VAR\n\
+FUNCTION_BLOCK B{i}\nVAR_INPUT x : DINT; END_VAR\nVAR_OUTPUT y : DINT; END_VAR\nVAR s : S{i}; c : C{i}; dd : D{i}; ee : Gc{i}; df : DerFb{i}; d2 : Der2Fb{i}; al : Al{i}; r : REF_TO DINT; END_VAR\n\
 METHOD PUBLIC Adv : DINT\nVAR_INPUT k : DINT; END_VAR\ns.a := (s.a + k) MOD 1000;\nAdv := s.a;\nEND_METHOD\n\
-al := G{i}(x);\nr := REF(al);\ndf();\ny := (c.M{i}(x) + THIS.Adv(al) + r^ + dd.M{i}(1) + dd.X{i}() + df.A4()) MOD 100000;\n\
+al := G{i}(x);\nr := REF(al);\ndf();\ny := (c.M{i}(x) + THIS.Adv(al) + r^ + dd.M{i}(1) + dd.X{i}() + df.A4() + ee.W{i}(2) + d2.A5()) MOD 100000;\n\
 IF s.b = E{i}#Ea{i} THEN s.b := E{i}#Eb{i}; ELSE s.b := E{i}#Ea{i}; END_IF;\nEND_FUNCTION_BLOCK\n"
         );
         units.push(json!({"id": i, "text": unit, "var": format!("  b{i} : B{i};\n"), "stmt": format!("b{i}(x := t);\nt := (t + b{i}.y) MOD 1000;\n")}));
